@@ -32,5 +32,6 @@ def run(ctx):
     fmm.transform_values(ctx)
     fmmmode.fmm_mode(ctx)
     fmmmode.curl_reuse(ctx)
+    fmmmode.near_dispatch(ctx)
     c11.edge_convention(ctx)
     rules.kernel_specs(ctx, ("laplace", "helmholtz", "modified_helmholtz"), include_singular=False)
